@@ -131,10 +131,11 @@ theorem decPrep_fresh_st (st : DecState) (segs : List Seg) (store : List Byte) (
 theorem fresh_call_nil (v : Variant) (segs : List Seg) (st : DecState) (store : List Byte) (hflat : flat segs = store)
     (hb : Bnd store.length st) (hf : Fresh st) (hnil : store.drop st.curr = []) :
     (decodeCobs v st segs false).ret = .val 0 ∧ Fresh (decodeCobs v st segs false).st ∧
-      (decodeCobs v st segs false).st.curr = st.curr ∧ (decodeCobs v st segs false).store = store := by
+      (decodeCobs v st segs false).st.curr = st.curr ∧ (decodeCobs v st segs false).store = store ∧
+      (decodeCobs v st segs false).st.msg = none := by
   obtain ⟨st', l, hprep⟩ := decPrep_noerr st segs store hb
   obtain ⟨h1, h2, h3, h4, h5, h6, h7⟩ := decPrep_fresh st _ store st' l hf hprep
-  obtain ⟨hf', hc', _⟩ := decPrep_fresh_st st segs store st' l hf hprep
+  obtain ⟨hf', hc', hm'⟩ := decPrep_fresh_st st segs store st' l hf hprep
   unfold decodeCobs
   simp only [Bool.false_eq_true, if_false, hflat, hprep]
   unfold decStart
@@ -144,7 +145,7 @@ theorem fresh_call_nil (v : Variant) (segs : List Seg) (st : DecState) (store : 
     have := congrArg (fun x => x[0]?) hnil
     simpa using this
   rw [this]
-  exact ⟨rfl, hf', hc', h1⟩
+  exact ⟨rfl, hf', hc', h1, hm'⟩
 
 /-- a call between two messages that finds the first byte `c0 ≠ 0` of a frame -/
 theorem fresh_call0 (v : Variant) (segs : List Seg) (st : DecState) (store : List Byte) (hflat : flat segs = store)
